@@ -9,16 +9,32 @@ TB = ("Trusted base: Lean 4.33 kernel (+ leanchecker in the thorough tier); axio
       "correspondence harness and its generators; glibc printf/strtod/strto* specifications. ")
 
 CHECKS = {
+ 'C01': dict(
+   text=("Partial. Proved for all values: every scalar rendering the writer produces is read back by the corresponding scanner rule action "
+         "as the same value — C01_int_dec / C01_int64_dec / C01_int_hex / C01_int64_hex (every 32/64-bit integer, both formats, through "
+         "C08's theorems), C01_writer_* (that is what the writer prints), C01_string (the documented reading of a string literal inverts "
+         "the writer's escaping byte for byte for every NUL-free string and stops at the closing quote), C01_float_shape + "
+         "C01_float_readback (the text written for any finite double is a float literal whose correctly rounded value is stored). With "
+         "C18 (tokenization = documented definitions), C19_bytes and C08 this is the lexeme layer of the round trip. The composition "
+         "(token boundaries, grammar, tree rebuilding) is decided by the direct oracle: dump -> write -> read_string -> dump -> write on "
+         "trees from API histories, parsed texts and boundary value pools under sampled/all option words, precisions, tab widths and "
+         "default formats, with an independent Python implementation of the property's equivalence (glibc-exact printf rendering, "
+         "correctly rounded float) and text idempotence."),
+   note=TB + "Not a theorem: the end-to-end composition (needs parser completeness). Known finding C01:member-name~/^(true|false)$/i is reproduced deliberately on every run.",
+   technique='per-lexeme round-trip theorems in Lean 4 + write/read/compare direct oracle + byte-exact writer correspondence', ref='§5 C01'),
  'C02': dict(
-   text=("Theorems about the model's parser pieces are still growing; what decides the property today: the LALR tables, the text of every "
-         "grammar action and the scanner tables are re-translated from grammar.c/scanner.c on every run into the Lean model of the bison "
-         "skeleton, and that model is run against the real parser on EVERY viable token-kind prefix up to the length bound plus every "
-         "one-token invalid extension (overrides off and on, varied spellings), comparing result, error text/line and the whole tree; an "
-         "independent recogniser of the documented grammar with duplicate/array-type tracking (tools/gen_text.py) is the direct oracle."),
-   note=TB + "The link 'compiled LALR tables = documented grammar' is exhaustive-to-bound (quick: length 6, thorough: 8), not a theorem; "
-        "known findings C02:string-element-mismatch-line and C02:parser-stack-limit.",
-   technique='Lean 4 model regenerated from grammar.c/scanner.c tables + exhaustive-to-bound correspondence against an independent grammar recogniser',
-   ref='§5 C02'),
+   text=("Proved: C02_sound — whenever the model of bison's yyparse loop over the TRANSLATED tables (with the real scanner model and the real "
+         "actions) accepts, the input lexes to a token sequence whose kinds are derivable from the documented grammar (Grammar.lean, 41 "
+         "rules in the tables' symbol numbering); the LR soundness argument is made static by a kernel-decided check of the tables against "
+         "a certificate of automaton edges (every reduction available in a state finds exactly its right-hand side on every path into "
+         "that state; shift/goto targets have the right accessing symbols; only `configuration $end` reaches the final state) plus a loop "
+         "invariant attaching a derivation tree to every stack entry; C02_rules_match (yyr1/yyr2 agree with the grammar). Completeness "
+         "and the denotation of the tree are decided to a bound: every viable token-kind prefix up to the bound plus every one-token "
+         "invalid extension, rendered with varied spellings, duplicates and mixed arrays injected and tracked, overrides off/on, against "
+         "an independent recogniser of the documented grammar (direct oracle: accept/reject and error class by first offence) and against "
+         "the model (result, error text/line, full tree with source lines)."),
+   note=TB + "Completeness (derivable => accepted) is exhaustive-to-bound (quick: length 6, thorough: 8), not a theorem; known findings C02:string-element-mismatch-line and C02:parser-stack-limit are reproduced by the model.",
+   technique='LR soundness theorem over translated LALR tables (kernel-decided certificate check + loop invariant) in Lean 4; exhaustive-to-bound correspondence against an independent grammar recogniser', ref='§5 C02'),
  'C04': dict(
    text=("Theorem C04_step: every API operation other than a read, with arbitrary arguments, preserves the well-formedness invariant "
          "(root nameless group; distinct valid member names; nameless list/array elements; arrays of scalars of one type; scalars have no "
@@ -152,7 +168,7 @@ CHECKS = {
    technique='structural-induction theorems about the writer model in Lean 4 + byte-exact differential correspondence', ref='§5 C19'),
 }
 
-READY = ['C04', 'C05', 'C06', 'C07', 'C08', 'C09', 'C12', 'C13', 'C14', 'C15', 'C16', 'C18', 'C19', 'C20']
+READY = ['C01', 'C02', 'C04', 'C05', 'C06', 'C07', 'C08', 'C09', 'C12', 'C13', 'C14', 'C15', 'C16', 'C18', 'C19', 'C20']
 NOT_YET = "check under construction in this round (model part exists, no registered check yet); see DESIGN.md §9"
 
 def main():
